@@ -290,6 +290,11 @@ func (c *Client) Resume() error {
 	if c.PostResumeHook != nil {
 		err = c.PostResumeHook()
 	}
+
+	// The new connection needs its own keepalive and receiver go routines, as in Connect.
+	keepaliveQuit := make(chan struct{})
+	go keepalive(c.transport, c.config.KeepaliveInterval, keepaliveQuit)
+	go c.recv(keepaliveQuit)
 	return err
 }
 
